@@ -83,8 +83,8 @@ CHECKS = {
    technique="symbolic execution of go/ssa on a cooperative scheduler, DFS over scheduling decisions with a preemption bound (bounded model checking)",
    design="5/C12"),
  "C13": dict(
-   text="Bounded model checking over SCHEDULES of the library's own sinks and composites: the plain string logger (StringWriter through the real log.Logger) with two producers on the same or on the output and error streams, NewCombinedLoggers with Log || LogError, Log || Append and Append || Append, and a composite built from a caller-owned slice that the caller appends to afterwards: every interleaving with at most 2 preemptions at lock/atomic/channel operations and INSIDE every strings.Builder append and member append (modelled as non-atomic read-modify-write): every message reaches the sink exactly once and intact, composites deliver every message to every member exactly once, every appended member is kept, the composite owns its member list; a composite writer (MultipleWritersWithSource behind the real log.Logger) with members that fail, write short or fail once still offers every message to every member and closes them all. The check found the RLock-for-a-write defect of StringWriter, which is fixed.",
-   note="Third-party adapters (zap, logrus, hclog, slog, logr, diode ring buffer, file/JSON loggers) are not encoded; memory is sequentially consistent; not natively replayable.",
+   text="Bounded model checking over SCHEDULES of the library's own sinks and composites: the plain string logger (StringWriter through the real log.Logger) with two producers on the same or on the output and error streams, NewCombinedLoggers with Log || LogError, Log || Append and Append || Append, and a composite built from a caller-owned slice that the caller appends to afterwards: every interleaving with at most 2 preemptions at lock/atomic/channel operations and INSIDE every strings.Builder append and member append (modelled as non-atomic read-modify-write): every message reaches the sink exactly once and intact, composites deliver every message to every member exactly once, every appended member is kept, the composite owns its member list; a composite writer (MultipleWritersWithSource behind the real log.Logger) with members that fail, write short or fail once still offers every message to every member and closes them all. The library's logr adapter (the front of the zap / logrus / hclog / slog / file loggers), alone and as member of a composite, with SetLogSource || SetLogSource and SetLogSource || Log and every heap access a scheduling point: the source it reports and the source its messages carry agree, nothing is lost. The check found the RLock-for-a-write defect of StringWriter and the unsynchronised logger replacement of the logr adapter; both are fixed.",
+   note="The third-party back ends behind the logr adapter (zap, logrus, hclog, slog), the diode ring buffer and the file/JSON writers are not encoded (the adapter runs over a sink double); memory is sequentially consistent; not natively replayable.",
    technique="symbolic execution of go/ssa on a cooperative scheduler, DFS over scheduling decisions with a preemption bound (bounded model checking)",
    design="5/C13"),
 
